@@ -877,19 +877,29 @@ M("C01.event_map_props_drops_extent", ["C01"], "core/src/event.rs",
 
 # ---- C20 entry points --------------------------------------------------------------------------------------------------
 M("C20.try_init_internal_reads_shared_handle", ["C20"], "src/setup.rs",
-  """        Some(Init {
-            rt: slot.get(),
-            emitter: *ambient.emitter(),
-            ctxt: *ambient.ctxt(),
-        })
-    }
-}""",
-  """        Some(Init {
-            rt: emit_core::runtime::shared_slot().get(),
-            emitter: *ambient.emitter(),
-            ctxt: *ambient.ctxt(),
-        })
-    }
-}""", "C20.R6:right-slot")
+  """                .with_rng(self.rng),
+        )?;
+
+        Some(Init {
+            rt: slot.get(),""",
+  """                .with_rng(self.rng),
+        )?;
+
+        Some(Init {
+            rt: emit_core::runtime::shared_slot().get(),""", "C20.R6:right-slot", count=2)
 M("C20.init_guard_zero_timeout", ["C20"], "src/setup.rs",
   "        self.inner.blocking_flush(self.timeout);", "        self.inner.blocking_flush(Duration::ZERO);", "C20.R6:InitGuard")
+
+# ---- format templates (rules/fmtspec.py) ---------------------------------------------------------------------------------
+M("C11.month_not_zero_padded", ["C11"], "emitter/file/src/lib.rs",
+  '''        RollBy::Hour => format!(
+            "{:>04}-{:>02}-{:>02}-{:>02}",''',
+  '''        RollBy::Hour => format!(
+            "{:>04}-{}-{:>02}-{:>02}",''', "C11.R10")
+M("C11.counter_unpadded", ["C11"], "emitter/file/src/lib.rs",
+  '    format!("{:<08}.{:<08x}", rolling_millis, rolling_id)', '    format!("{}.{:<08x}", rolling_millis, rolling_id)', "C11.R10")
+M("C11.period_day_before_month", ["C11"], "emitter/file/src/lib.rs",
+  """            "{:>04}-{:>02}-{:>02}",
+            parts.years, parts.months, parts.days,""",
+  """            "{:>04}-{:>02}-{:>02}",
+            parts.years, parts.days, parts.months,""", "C11.R10")
